@@ -993,7 +993,7 @@ func c06ReadAccounting(p *load.Program, r *oblig.Report) {
 // configured Balancer falls back to its own RoundRobin, which must be one object for the life of the Writer.
 // Decided: (*Writer).balancer returns w.Balancer or the address of a field of the Writer, never a fresh value.
 func c13WriterBalancer(p *load.Program, r *oblig.Report) {
-	const rule = "C13.R7 the Writer's default balancer keeps its state between calls"
+	const rule = "C13.R9 the Writer's default balancer keeps its state between calls"
 	fn := p.Func("", "(*Writer).balancer")
 	if fn == nil {
 		r.Lost(rule, "kafka.(*Writer).balancer")
@@ -1908,4 +1908,151 @@ func c19SplitAlwaysMerged(p *load.Program, r *oblig.Report, rule string) {
 	})
 	sort.Strings(bad)
 	r.Check(n == 1 && joins >= 1 && len(bad) == 0, rule, "connPool.roundTrip answers a split request through join(promises, messages, merger), whatever the number of parts", p.Pos(fn.Pos()), "for i, m := range messages { promises[i] = p.sendRequest(ctx, m, state) }; response = join(promises, messages, merger)", strings.Join(bad, "; "))
+}
+
+// c15StartAccounted: "Next does not return a generation until every function started in the previous one has
+// returned" needs every function handed to Start to be counted in g.routines before its goroutine starts; close()
+// waits for the count to reach zero. One obligation per go statement of Start.
+func c15StartAccounted(p *load.Program, r *oblig.Report) {
+	const rule = "C15.R10 every function started in a generation is waited for"
+	fn := p.Func("", "(*Generation).Start")
+	if fn == nil {
+		r.Lost(rule, "kafka.(*Generation).Start")
+		return
+	}
+	var incs []ssa.Instruction
+	an.EachInstr(fn, func(ins ssa.Instruction) {
+		if st, ok := fieldStoreIs(ins, "Generation", "routines"); ok && st.Parent() == fn {
+			incs = append(incs, st)
+		}
+	})
+	n := 0
+	an.EachInstr(fn, func(ins ssa.Instruction) {
+		g, ok := ins.(*ssa.Go)
+		if !ok || g.Parent() != fn {
+			return
+		}
+		n++
+		counted := false
+		for _, inc := range incs {
+			if an.Dominates(inc, g) {
+				counted = true
+			}
+		}
+		// which go statement: the one under the closed test, or the regular one
+		which := "the regular path"
+		for d, child := g.Block().Idom(), g.Block(); d != nil; d, child = d.Idom(), d {
+			iff, _ := an.IfCond(d)
+			if iff != nil && strings.HasSuffix(clean(an.Shape(iff.Cond)), ".closed") && edgeControls(d, 0, child) {
+				which = "a generation that has already ended"
+			}
+		}
+		r.Check(counted, rule, "Generation.Start → the function started on "+which+" is counted in g.routines before its goroutine starts", p.Pos(g.Pos()),
+			"g.routines++ before the go statement", "the goroutine is started without being counted: close() does not wait for it and Next can hand out the next generation while it runs")
+	})
+	r.RequireCount(rule, n, 2)
+}
+
+// c06AwaitPositional: the merger pairs results[i] with requests[i] (ListOffsets restores the requested timestamp
+// and attributes a failure from requests[i]). (*joined).await must therefore file the outcome of promise i at index
+// i: one loop over the promises, storing at the loop's own index, on the caller's goroutine.
+func c06AwaitPositional(p *load.Program, r *oblig.Report, rule string) {
+	fn := p.Func("", "(*joined).await")
+	if fn == nil {
+		r.Lost(rule, "kafka.(*joined).await")
+		return
+	}
+	n := 0
+	var bad []string
+	an.EachInstr(fn, func(ins ssa.Instruction) {
+		switch x := ins.(type) {
+		case *ssa.Go:
+			bad = append(bad, "a goroutine is started at "+p.Pos(x.Pos()))
+		case *ssa.Call:
+			if b, isB := x.Call.Value.(*ssa.Builtin); isB && b.Name() == "append" {
+				bad = append(bad, "results are appended (in completion order) at "+p.Pos(x.Pos()))
+			}
+		case *ssa.Store:
+			ia, isIA := x.Addr.(*ssa.IndexAddr)
+			if !isIA {
+				return
+			}
+			if _, isSl := ia.X.Type().Underlying().(*types.Slice); !isSl {
+				return
+			}
+			n++
+			// the index is the position of the promise being awaited: the same value indexes p.promises
+			same := false
+			an.EachInstr(fn, func(i2 ssa.Instruction) {
+				if ia2, ok := i2.(*ssa.IndexAddr); ok && ia2 != ia && ia2.Index == ia.Index && strings.Contains(clean(an.Shape(ia2.X)), "promises") {
+					same = true
+				}
+			})
+			if !same {
+				bad = append(bad, "the store at "+p.Pos(x.Pos())+" is not indexed by the position of the promise")
+			}
+		}
+	})
+	sort.Strings(bad)
+	r.Check(n >= 1 && len(bad) == 0, rule, "(*joined).await stores the outcome of promises[i] in results[i], on the caller's goroutine", p.Pos(fn.Pos()), "for i, sub := range p.promises { m, err := sub.await(ctx); results[i] = … }", strings.Join(bad, "; "))
+}
+
+// c15JoinedIDAfterJoin: once joinGroup succeeded the member exists under the id the coordinator assigned: every later
+// exit of nextGeneration (a failed sync, a failed offset fetch, the group closed) hands that id back, so that run()
+// leaves the group with it.
+func c15JoinedIDAfterJoin(p *load.Program, r *oblig.Report) {
+	const rule = "C15.R11 after a successful join every exit hands back the assigned member id"
+	fn := p.Func("", "(*ConsumerGroup).nextGeneration")
+	if fn == nil {
+		r.Lost(rule, "kafka.(*ConsumerGroup).nextGeneration")
+		return
+	}
+	var join *ssa.Call
+	an.EachInstr(fn, func(ins ssa.Instruction) {
+		if c, ok := ins.(*ssa.Call); ok && c.Parent() == fn && c.Call.StaticCallee() != nil && an.RefFuncName(c.Call.StaticCallee()) == "joinGroup" {
+			join = c
+		}
+	})
+	if join == nil {
+		r.Bad(rule, "ConsumerGroup.nextGeneration → joinGroup", p.Pos(fn.Pos()), "a call of cg.joinGroup", "not found")
+		return
+	}
+	var joined ssa.Value
+	for _, ref := range *join.Referrers() {
+		if x, isX := ref.(*ssa.Extract); isX && x.Index == 0 {
+			joined = x
+		}
+	}
+	// the success edge of the error test of joinGroup
+	var from *an.Point
+	for _, b := range an.Blocks(fn) {
+		_, ci := an.IfCond(b)
+		e := ci.Edge(token.EQL)
+		if e < 0 || !an.IsNilConst(ci.Y) {
+			continue
+		}
+		for _, v := range []ssa.Value{an.Unwrap(ci.X), an.Unwrap(an.CellValueAt(ci.X))} {
+			if ex, isEx := v.(*ssa.Extract); isEx && ex.Tuple == ssa.Value(join) {
+				from = &an.Point{B: b.Succs[e], Idx: -1}
+			}
+		}
+	}
+	if from == nil || joined == nil {
+		r.Bad(rule, "ConsumerGroup.nextGeneration → error test of joinGroup", p.Pos(join.Pos()), "if err != nil { … }", "not found")
+		return
+	}
+	q := an.PathQuery{Fn: fn, Target: func(i ssa.Instruction) bool {
+		ret, isRet := i.(*ssa.Return)
+		if !isRet || ret.Parent() != fn {
+			return false
+		}
+		v := an.Unwrap(an.CellValueAt(an.RetVal(ret, 0)))
+		return v != joined
+	}}
+	hit := q.ReachableFrom(*from)
+	found := ""
+	if hit != nil {
+		found = "the exit at " + p.Pos(hit.Pos()) + " returns " + clean(an.Shape(an.RetVal(hit.(*ssa.Return), 0))) + " as the member id"
+	}
+	r.Check(hit == nil, rule, "ConsumerGroup.nextGeneration → after joinGroup succeeded every return carries the id it assigned", p.Pos(join.Pos()), "memberID = joinedID right after the successful join", found)
 }
